@@ -16,7 +16,9 @@ use rpki::repository::cert::{Cert, KeyUsage};
 use rpki::repository::resources::{AsResources, IpResources};
 use rpki::repository::x509::Name;
 
-fn name_hex(n: &Name) -> String { hex(n.encode_ref().to_captured(Mode::Der).as_slice()) }
+fn name_hex(n: &Name) -> String { name_hex_mode(n, Mode::Der) }
+/// the captured octets of a name; a name decoded in BER mode can only be written in BER mode
+pub fn name_hex_mode(n: &Name, mode: Mode) -> String { hex(n.encode_ref().to_captured(mode).as_slice()) }
 
 fn show_ipres(r: &IpResources, v4: bool) -> String {
     if r.is_inherited() { "I".into() } else if !r.is_present() { "M".into() }
@@ -32,7 +34,9 @@ fn opt_hex(b: Option<&[u8]>) -> String { match b { Some(b) => hex(b), None => "N
 
 fn b01(b: bool) -> char { if b { '1' } else { '0' } }
 
-pub fn show_cert(c: &Cert) -> String {
+pub fn show_cert(c: &Cert) -> String { show_cert_mode(c, Mode::Der) }
+
+pub fn show_cert_mode(c: &Cert, mode: Mode) -> String {
     let mut insp = String::new();
     for strict in [true, false] {
         insp.push(b01(c.inspect_ta(strict).is_ok()));
@@ -45,8 +49,8 @@ pub fn show_cert(c: &Cert) -> String {
     let parts: Vec<String> = vec![
         "ok".into(),
         hex(&c.serial_number().into_array()),
-        name_hex(c.issuer()),
-        name_hex(c.subject()),
+        name_hex_mode(c.issuer(), mode),
+        name_hex_mode(c.subject(), mode),
         c.validity().not_before().timestamp().to_string(),
         c.validity().not_after().timestamp().to_string(),
         if c.subject_public_key_info().allow_rpki_cert() { "r".into() } else { "e".into() },
